@@ -931,11 +931,6 @@ func (p *routePlace) runDest(idx int) {
 						break
 					}
 					orc := fs[i].Accept(name)
-					if typ == "sendFirstMatch" && got[i] == 1 && orc && expect[i] == 0 {
-						// the filter decision agrees with the documentation; a destination after the first match got the line too
-						k.res.Violate("dest-firstmatch-extra-handoff", fmt.Sprintf("line %q: sendFirstMatch also handed it to destination %d after an earlier destination had matched", line, i), witness{Place: "dest", Case: idx, Filter: specs[i], Name: name, Line: line, Config: config, Detail: detail})
-						break
-					}
 					if orc {
 						seenAcc[i]++
 					} else {
@@ -945,7 +940,14 @@ func (p *routePlace) runDest(idx int) {
 						break
 					}
 					if typ == "sendFirstMatch" && got[i] == 1 {
-						break // the decisions of later destinations are not observable
+						// the decisions of later destinations are not observable, but they must not get the line
+						for j := i + 1; j < nd; j++ {
+							if got[j] != 0 {
+								k.res.Violate("dest-firstmatch-extra-handoff", fmt.Sprintf("line %q: sendFirstMatch handed it to destination %d and also to destination %d", line, i, j), witness{Place: "dest", Case: idx, Filter: specs[j], Name: name, Line: line, Config: config, Detail: detail})
+								break
+							}
+						}
+						break
 					}
 				}
 			}
